@@ -14,8 +14,8 @@ import traceback
 import multiprocessing
 
 ROOT = os.path.dirname(os.path.dirname(os.path.abspath(__file__)))
-EVIDENCE_DIR = os.path.join(ROOT, "evidence")
-REPLAY_DIR = os.path.join(ROOT, "replay")
+EVIDENCE_DIR = os.environ.get("KV_EVIDENCE_DIR") or os.path.join(ROOT, "evidence")
+REPLAY_DIR = os.environ.get("KV_REPLAY_DIR") or os.path.join(ROOT, "replay")
 KNOWN_FILE = os.path.join(ROOT, "known_findings.json")
 SCRATCH_BASE = "/dev/shm" if os.path.isdir("/dev/shm") and os.access("/dev/shm", os.W_OK) \
     else os.environ.get("TMPDIR", "/var/tmp")
